@@ -69,6 +69,7 @@ def hist_cmode(rnd, sid, steps):
     alive = order[:3]
     later = order[3:]
     ops = [{"op": "construct", "o": o} for o in alive]
+    nlsz = {}
     for i in range(steps):
         r = rnd.random()
         insts = inst_list(alive)
@@ -82,7 +83,12 @@ def hist_cmode(rnd, sid, steps):
         elif r < 0.53:
             fl = [x for x in alive if x.startswith("o")]
             o = rnd.choice(fl)
-            ops.append({"op": "list", "kind": rnd.choice(["l_append", "l_append", "l_assign"]), "p": o + ".nl",
+            kind = rnd.choice(["l_append", "l_append", "l_assign"])
+            # the model bounds the list length (cap 6 in world_hier): stay inside it
+            if kind == "l_append" and nlsz.get(o, 1) >= 6:
+                kind = "l_assign"
+            nlsz[o] = nlsz.get(o, 1) + 1 if kind == "l_append" else 1
+            ops.append({"op": "list", "kind": kind, "p": o + ".nl",
                         "vs": [bits(rnd.randrange(4), 2)]})
         elif r < 0.60 and later:
             n = later.pop()
